@@ -125,6 +125,8 @@ Step1 ==
          [] e.ev = "OnShutdown" ->
               Step(lc, loopg, hs, pend, req, [eng EXCEPT !.onShutdown = @ + 1],
                    Check(eng.onShutdown = 0, "OnShutdownOnce", eng.onShutdown + 1, Final(viols, "OnShutdown")))
+         \* C19: once Run has returned the handle reports the shutdown (whatever ended the engine)
+         [] e.ev = "AfterRun" -> Same(Check(e.validate = "ErrEngineInShutdown" /\ e.count = -1, "StoppedHandleReportsShutdown", <<e.validate, e.count>>, viols))
          [] e.ev \in {"Tick", "TickEnd"} -> Same(Final(viols, e.ev))
          [] e.ev = "RunRet" ->
               LET open == {c \in DOMAIN lc : lc[c].life = "open"}
